@@ -14,6 +14,7 @@ import (
 	"os"
 	"runtime/debug"
 	"sort"
+	"strings"
 )
 
 type Case struct {
@@ -109,6 +110,9 @@ func run(c *Case) (impl string) {
 }
 
 func outcomeClass(s string) string {
+	if strings.Contains(s, ";skip=") || strings.Contains(s, "pid=") || strings.Contains(s, ",") {
+		return "sequence"
+	}
 	switch {
 	case s == "panic":
 		return "panic"
